@@ -179,6 +179,9 @@ use std::collections::HashMap;
     2 * forest_size(collect_spec(*self, contents@, true).1) < usize::MAX,
 //@ensures label=list_all_is_spec props=C17
     r@ == merge_all_final(mm_spec(collect_spec(*self, contents@, true).0), mm_spec(collect_spec(*self, contents@, true).1)),
+//@ensures label=ready_once_in_order_pending_outside_ready props=C17
+    ready_sub(r@) == mm_spec(collect_spec(*self, contents@, true).0),
+    pending_sub(r@) == pend_kept(mm_spec(collect_spec(*self, contents@, true).0), mm_spec(collect_spec(*self, contents@, true).1), 0, mm_spec(collect_spec(*self, contents@, true).1).len() as int),
 //@extendmap
 //@tupleclone "v.clone()" arity=2
 //@lettype merged_ranges type="Vec<(RemoveMarker, bool)>"
@@ -211,6 +214,18 @@ use std::collections::HashMap;
 //@at before "let mut merged_ranges"
     let ghost __rs = ranges@;
     let ghost __ps = ranges_pending@;
+    proof {
+        // C17: both marker lists are sorted and disjoint, so the interleaving lists every ready marker once
+        // and exactly the pending markers outside every ready marker
+        let f0 = collect_spec(*self, contents@, true).0;
+        let f1 = collect_spec(*self, contents@, true).1;
+        let (lo0, hi0) = choose|lo: int, hi: int| wf_forest(f0, lo, hi);
+        let (lo1, hi1) = choose|lo: int, hi: int| wf_forest(f1, lo, hi);
+        lemma_mm_core(f0, lo0, hi0);
+        lemma_mm_core(f1, lo1, hi1);
+        assert(markers_sorted_by_start(mm_spec(f1)));
+        lemma_merge_all_final_sub(mm_spec(f0), mm_spec(f1));
+    }
 //@at loop 1 start
     let ghost __m0 = merged_ranges@;
     let ghost __c0 = range_cursor as int;
